@@ -407,6 +407,7 @@ func (w *world) dial() (*peer, error) {
 		return nil, err
 	}
 	p := &peer{conn: c, raw: vh.NewRaw(c)}
+	p.raw.Timeout = 120 * time.Second // a slow machine is not an observation
 	p.st = <-w.stubs
 	if _, err := p.raw.ReadResp(); err != nil {
 		return nil, fmt.Errorf("greeting: %v", err)
